@@ -157,6 +157,7 @@ def run_C16(ctx, R):
     _scoped(ctx, R, lst.lst1, C16_ENTRIES, 6)
     _scoped(ctx, R, out.out5, C16_ENTRIES, 3)
     _scoped(ctx, R, out.out6, C16_ENTRIES, 1)
+    _per_config(ctx, R, utilsx.pfx1)
     from .rules import shape
     _per_config(ctx, R, lambda units, r: shape.shp1(units, r, only_unit='cJSON_Utils.c'))
 
@@ -332,6 +333,7 @@ def run_C09(ctx, R):
     _per_config(ctx, R, outbuf.out1)
     _per_config(ctx, R, outsym.out23)
     _per_config(ctx, R, outbuf.out4)
+    _per_config(ctx, R, outbuf.out8)
     _per_config(ctx, R, bnd.bnd4_all)
     _per_config(ctx, R, outbuf.tab5bc)
 
@@ -341,6 +343,7 @@ def run_C04(ctx, R):
     _per_config(ctx, R, outbuf.tab5bc)
     _per_config(ctx, R, outbuf.out1)
     _per_config(ctx, R, outsym.out23)
+    _per_config(ctx, R, outbuf.out8)
     _per_config(ctx, R, outbuf.tab2_print)
 
 
@@ -354,6 +357,7 @@ def run_C05(ctx, R):
     _per_config(ctx, R, outbuf.print_literals)
     from .rules import outsym
     _per_config(ctx, R, outsym.out23)
+    _per_config(ctx, R, outbuf.out8)
 
 
 def run_C02(ctx, R):
@@ -411,7 +415,9 @@ PROPERTIES = {
             "printer can emit is decoded by the parser to the byte it stands for (parser table extracted; the printer's text per byte value computed by "
             "byte-set path exploration of its emitting loop and checked against RFC 8259). TAB5b: for every byte value 1..255 the counting pass reserves exactly what the emitting pass writes, so "
             "the closing quote lands where it should; quote, backslash and all control bytes are escaped and nothing else is. "
-            "OUT1/OUT2: every output write goes through an ensure() result and stays within the request. OUT3: at every next "
+            "OUT1/OUT2: every output write goes through an ensure() result and stays within the request. OUT8: no capacity request "
+            "is made while bytes written under an earlier one are not yet covered by ->offset (ensure may move the buffer and "
+            "preserves only what ->offset covers); may-dataflow, independent of the length arithmetic. OUT3: at every next "
             "request/printer call the offset has been advanced by exactly the bytes written before the terminator, which is "
             "the condition under which ensure()'s realloc branch and its allocate+memcpy(offset+1)+free branch preserve the "
             "same bytes (independence from realloc availability and from the initial buffer size). TAB2: print() returns "
@@ -669,7 +675,9 @@ PROPERTIES = {
         'explanation':
             "Survival and table clauses of patch application on every function reachable from cJSONUtils_ApplyPatches*. "
             "TAB12: every payload field (valuestring/child/value*) of a node looked up in the caller-supplied patch "
-            "document is used only under the matching cJSON_Is* test of that node. TAB10: every patch_operation "
+            "document is used only under the matching cJSON_Is* test of that node. PFX1: a strncmp/memcmp of two pointer texts over the "
+            "length of one of them leads to a non-zero result only together with a test of the next byte against '/' (no such "
+            "comparison exists today; the rule is kept alive by its fixture). TAB10: every patch_operation "
             "enumerator is decoded from exactly its RFC 6902 name and tested in apply_patch. TAB11: case flag "
             "propagation (detach, lookup, compare, sort). TAB9/OUT5/OUT6: the in-place key decoder agrees with the other "
             "pointer tables, leaves no unwritten byte behind its write cursor and never writes ahead of its read "
